@@ -765,6 +765,10 @@ func modeForB(g *cx.G, budget int) string {
 }
 
 func gen(g *hx.Gen) {
+	// hx.NewRng(seed) is a splitmix64 counter started at seed*golden: the streams of consecutive
+	// seeds are the same stream shifted by one draw.  Restart from one scrambled output so that
+	// different VERIF_SEEDs give unrelated cases (still a function of VERIF_SEED only).
+	g.Rng = hx.NewRng(g.Rng.U64() ^ 0x5851F42D4C957F2D)
 	emit := func(fam string, gr *cx.G, toks string) {
 		m := modeFor(gr)
 		if fam != "" {
@@ -963,13 +967,19 @@ func gen(g *hx.Gen) {
 	// the root is trivial, so the search tree, the pruning and deage are exercised), random
 	// circulants and their perturbations by one switch
 	volTok := func() string { return fmt.Sprintf("rand:%d:%d", g.Rng.U64()>>1, g.Pick(40, 60)) }
-	for i := 0; i < g.Pick(6000, 60000); i++ {
+	for i := 0; i < g.Pick(15000, 80000); i++ {
 		n := g.Rng.Range(10, 16)
 		d := g.Rng.Range(3, 6)
 		if i%3 == 0 {
 			d = 4 + 2*g.Rng.Intn(2)
 		}
-		emitB("regular", cx.RandomRegularSwitch(g.Rng, n, d), volTok(), 150)
+		gr := cx.RandomRegularSwitch(g.Rng, n, d)
+		if g.Thorough() || i%5 < 2 {
+			emitB("regular", gr, volTok(), g.Pick(24, 150))
+		} else {
+			// quick tier: the model is the slow side (about 1 ms per graph), three in five are oracle-only
+			g.Emit("o:regular;" + gr.Graph6() + ";" + volTok())
+		}
 	}
 	for i := 0; i < g.Pick(400, 3000); i++ {
 		n := g.Rng.Range(10, 16)
